@@ -10,7 +10,7 @@
    frames), so no decoder can run longer than the input it is given; the only
    unbounded recursion of the code (frame reassembly) recurses on the input. *)
 From Coq Require Import List NArith ZArith.
-From Cedar Require Import Lib.Bytes gen.Consts Model.Msg Model.Decode Proofs.C13.
+From Cedar Require Import Lib.Bytes gen.Consts Model.Msg Model.Decode Proofs.C13 Proofs.C13ad Proofs.C13raw.
 Import ListNotations.
 Local Open Scope N_scope.
 
@@ -38,6 +38,16 @@ Theorem C13_alloc_bounded :
 Proof. exact alloc_bounded_seq. Qed.
 Print Assumptions C13_alloc_bounded.
 
+(* GetClassAdRaw also builds the ad's text: one more byte per byte consumed, one byte per
+   expression (at most avail r + 3 of them) and 16 per type line. *)
+Theorem C13_alloc_bounded_classad_raw :
+  forall (enc : bool) (r : reader),
+    let r' := fst (get_classad_raw enc r) in
+    r_alloc r <= r_alloc r' /\ avail r' <= avail r /\
+    r_alloc r' + 2 * avail r' <= r_alloc r + 3 * avail r + 35.
+Proof. exact get_classad_raw_alloc. Qed.
+Print Assumptions C13_alloc_bounded_classad_raw.
+
 (* A capped string reader consumes at most cap (+8 for the length prefix) bytes, never
    returns more than cap bytes without an error, and does not ask the stream for another
    frame while that many bytes are already buffered. *)
@@ -52,7 +62,7 @@ Print Assumptions C13_cap.
 
 (* Every string of a bounded ClassAd (expressions, the ZKM secret field, MyType,
    TargetType) is read under the remaining budget, and nothing is read once it is spent. *)
-Theorem C13_cap_classad_read_partial :
+Theorem C13_cap_classad_read :
   forall (enc : bool) (cap total : Z) (r : reader), (0 < cap)%Z ->
     let x := budget_read enc cap total r in
     ((cap - total <= 0)%Z -> x = (r, MErr MOther)) /\
@@ -61,7 +71,24 @@ Theorem C13_cap_classad_read_partial :
        (forall s, snd x = MOk s -> lenN s <= Z.to_N (cap - total)) /\
        (Z.to_N (cap - total) + (if enc then 8 else 0) <= lenN (r_buf r) -> r_in (fst x) = r_in r)).
 Proof. exact cap_classad_read. Qed.
-Print Assumptions C13_cap_classad_read_partial.
+Print Assumptions C13_cap_classad_read.
+
+(* The whole bounded ClassAd on a cleartext stream (count, every expression, secret
+   fields, MyType, TargetType, for ANY parser behaviour): at most cap + 8 bytes are
+   consumed, whatever the outcome. *)
+Theorem C13_cap_classad_clear :
+  forall (parse : N -> bytes -> bool) (cap : Z), (0 < cap)%Z -> forall r : reader,
+    avail r <= avail (fst (get_classad parse false cap r)) + Z.to_N cap + 8.
+Proof. exact get_classad_clear_cap. Qed.
+Print Assumptions C13_cap_classad_clear.
+
+(* The same on an encrypted stream, where every string carries an 8-byte length prefix
+   that is not charged to the budget: at most 6*cap + 32 bytes. *)
+Theorem C13_cap_classad_enc :
+  forall (parse : N -> bytes -> bool) (cap : Z) (r : reader), (0 < cap)%Z ->
+    avail r <= avail (fst (get_classad parse true cap r)) + 6 * Z.to_N cap + 32.
+Proof. exact get_classad_enc_cap. Qed.
+Print Assumptions C13_cap_classad_enc.
 
 (* Frames on a raw connection, cleartext or AES-GCM (any [open_] that does not lengthen
    its input): one frame, readNextFrame and ReceiveCompleteMessage never panic, never
@@ -110,6 +137,6 @@ Proof. exact import_session_info_attributes_total. Qed.
 Print Assumptions C13_session_info_total.
 
 (* The Panic outcome is not vacuous: the model of GetString before the fix panics. *)
-Theorem C13_unfixed_get_lstr_refuted : exists fs, snd (get_lstr (reader_of fs)) = MPanic.
+Theorem C13_unfixed_get_lstr_refuted : exists fs, snd (get_lstr_unfixed (reader_of fs)) = MPanic.
 Proof. exact unfixed_get_lstr_panics. Qed.
 Print Assumptions C13_unfixed_get_lstr_refuted.
